@@ -1,7 +1,7 @@
 (* Generic machinery for the preservation proof: reading the memory after a write, the generic step
    lemma (all obligations stated as deltas against the old state), the global counting lemmas K1 / K2. *)
 From Coq Require Import PeanoNat.
-From LLF Require Import Base BitLemmas Row RowProofs Bitfield Lower Spec LowerMachine ConcBase ConcInvDef.
+From LLF Require Import Base BitLemmas Row RowProofs Bitfield Lower Spec LowerMachine ConcBase ConcInvDef ConcInvGeom.
 
 Lemma nn_inj a b : nn a = nn b -> a = b. Proof. unfold nn. lia. Qed.
 Lemma nn_eqb a b : Nat.eqb (nn a) (nn b) = (a =? b).
@@ -77,3 +77,244 @@ Section Mem.
     destruct (Hok _ _ E) as [Hl Hf]. split; [rewrite upd_length; exact Hl|]. apply Forall_upd; assumption.
   Qed.
 End Mem.
+
+Lemma sumf_nth_error {A} (f : A -> N) (l : list A) :
+  sumf f l = ssum (N.of_nat (length l)) (fun i => match nth_error l (nn i) with Some x => f x | None => 0 end).
+Proof.
+  induction l as [|a l IH] using rev_ind; [reflexivity|].
+  rewrite app_length, sumf_app, sumf_cons, sumf_nil. cbn [length].
+  replace (N.of_nat (length l + 1)) with (N.of_nat (length l) + 1) by lia. rewrite ssum_succ.
+  unfold nn. rewrite Nat2N.id, nth_error_app2, Nat.sub_diag by lia. cbn [nth_error]. rewrite IH.
+  f_equal; [|lia]. apply ssum_ext. intros i Hi. rewrite nth_error_app1 by (unfold nn; lia). reflexivity.
+Qed.
+
+(* ---------- the generic step lemma ---------- *)
+Section Step.
+  Variable g : geom.
+  Hypothesis wf : wf_geom g.
+  Notation HF := (HF g).
+  Notation THUGE := (THUGE g).
+  Notation ROWS := (ROWS g).
+
+  Definition gsum (F : N -> N -> N) : N := ssum ROWS (fun r => ssum 64 (F r)).
+  Lemma gsum_ext F G : (forall r i, r < ROWS -> i < 64 -> F r i = G r i) -> gsum F = gsum G.
+  Proof. intros H. apply ssum_ext. intros r Hr. apply ssum_ext. intros i Hi. auto. Qed.
+  Lemma gsum_add F G : gsum (fun r i => F r i + G r i) = gsum F + gsum G.
+  Proof. unfold gsum. rewrite <- ssum_add. apply ssum_ext. intros r _. apply ssum_add. Qed.
+  Lemma gsum_sumf {A} (f : N -> N -> A -> N) (l : list A) :
+    gsum (fun r i => sumf (f r i) l) = sumf (fun p => gsum (fun r i => f r i p)) l.
+  Proof. unfold gsum. rewrite <- ssum_sumf. apply ssum_ext. intros r _. apply ssum_sumf. Qed.
+  Lemma gsum_zero F : gsum F = 0 -> forall r i, r < ROWS -> i < 64 -> F r i = 0.
+  Proof. intros H r i Hr Hi. pose proof (ssum_zero _ _ H r Hr) as H1. cbv beta in H1. exact (ssum_zero _ _ H1 i Hi). Qed.
+  Lemma gsum_ge F r i : r < ROWS -> i < 64 -> F r i <= gsum F.
+  Proof. intros Hr Hi. unfold gsum. etransitivity; [apply (ssum_ge 64 (F r) i Hi)|]. apply (ssum_ge ROWS (fun r => ssum 64 (F r)) r Hr). Qed.
+  Lemma gsum_row (F : N -> N) : gsum (fun r _ => F r) = 64 * ssum ROWS F.
+  Proof. unfold gsum. rewrite <- ssum_mulc. apply ssum_ext. intros r _. rewrite ssum_const. reflexivity. Qed.
+
+  Record step_at (s s' : mstate) (x0 x' : thr) (h : N) : Prop := {
+    SA : h < nbf g (ms_frames s) -> forall r i, r < ROWS -> i < 64 ->
+         b2n (bit s' h r i) + isMark (entv s' h) + heldc (fidx g h r i) (ms_held s) + fr g h r i x0 + tr g h r x0
+         = b2n (bit s h r i) + isMark (entv s h) + heldc (fidx g h r i) (ms_held s') + fr g h r i x' + tr g h r x';
+    SB : h < nbf g (ms_frames s) -> entv s' h = MARK -> forall r i, r < ROWS -> i < 64 ->
+         heldc (fidx g h r i) (ms_held s') + sumf (fr g h r i) (ms_pool s) + fr g h r i x' = 1 + fr g h r i x0;
+    SC : h < nbf g (ms_frames s) -> entv s' h <> MARK ->
+         entv s' h + sumf (pend g h) (ms_pool s) + pend g h x' + 64 * trcount g h x0
+         = zeros s' h + 64 * (sumf (trcount g h) (ms_pool s) + trcount g h x') + pend g h x0;
+    SD : h < nbf g (ms_frames s) -> entv s' h = MARK -> sumf (needsC g h) (ms_pool s) + needsC g h x' = needsC g h x0;
+    SG : h < nbf g (ms_frames s) -> entv s' h = MARK -> (h + 1) * HF <= ms_frames s;
+    SF : entv s' h <> MARK -> hugec g h (ms_held s') + sumf (hfr g h) (ms_pool s) + hfr g h x' = hfr g h x0;
+    SN : nbf g (ms_frames s) <= h -> entv s' h = 0
+  }.
+
+  Lemma inv_step s s' t x0 x' :
+    Inv g s -> nth_error (ms_pool s) t = Some x0 ->
+    ms_frames s' = ms_frames s -> ms_pool s' = upd (ms_pool s) t x' ->
+    length (ms_bfs s') = length (ms_bfs s) -> length (ms_ents s') = length (ms_ents s) ->
+    (forall h rows, nth_error (ms_bfs s') h = Some rows -> rows_ok g rows) ->
+    (forall h, step_at s s' x0 x' h) ->
+    isBad x' = 0 -> local_b g (ms_frames s) x' = true ->
+    Forall (fun b => blk_ok (ms_frames s) b = true) (ms_held s') ->
+    Inv g s'.
+  Proof.
+    intros I Ht Efr Epool El1 El2 Hrows Hst Hbad Hloc Hheld.
+    pose proof (fun f => sumf_upd f (ms_pool s) t x' x0 Ht) as U.
+    pose proof (fun f => sumf_ge f (ms_pool s) t x0 Ht) as G.
+    constructor; rewrite ?Efr, ?Epool, ?El1, ?El2.
+    - apply I. - apply I. - exact Hrows.
+    - intros h Hh. apply (SN _ _ _ _ _ (Hst h) Hh).
+    - intros h Hh He. apply (SG _ _ _ _ _ (Hst h) Hh He).
+    - intros h r i Hh Hr Hi. pose proof (SA _ _ _ _ _ (Hst h) Hh r i Hr Hi) as A.
+      pose proof (I_A g s I h r i Hh Hr Hi) as A0.
+      pose proof (U (fr g h r i)). pose proof (U (tr g h r)). lia.
+    - intros h Hh He r i Hr Hi. pose proof (SB _ _ _ _ _ (Hst h) Hh He r i Hr Hi) as B.
+      pose proof (U (fr g h r i)). lia.
+    - intros h Hh He. pose proof (SC _ _ _ _ _ (Hst h) Hh He) as C.
+      pose proof (U (pend g h)). pose proof (U (trcount g h)). lia.
+    - intros h Hh He. pose proof (SD _ _ _ _ _ (Hst h) Hh He) as D. pose proof (U (needsC g h)). lia.
+    - pose proof (U isBad). pose proof (G isBad). pose proof (I_E g s I). lia.
+    - intros h He. pose proof (SF _ _ _ _ _ (Hst h) He) as F. pose proof (U (hfr g h)). lia.
+    - apply Forall_upd; [apply I|exact Hloc].
+    - exact Hheld.
+  Qed.
+
+  (* huge frame h is not affected by the step: its memory is unchanged and the thread's ghost at h only
+     moves between the thread and the held list *)
+  Record same_at (s s' : mstate) (x0 x' : thr) (h : N) : Prop := {
+    E_ent : entv s' h = entv s h;
+    E_row : forall r, rowv s' h r = rowv s h r;
+    E_zeros : zeros s' h = zeros s h;
+    E_fr : forall r i, r < ROWS -> i < 64 ->
+           heldc (fidx g h r i) (ms_held s') + fr g h r i x' = heldc (fidx g h r i) (ms_held s) + fr g h r i x0;
+    E_tr : forall r, tr g h r x' = tr g h r x0;
+    E_pend : pend g h x' = pend g h x0;
+    E_trc : trcount g h x' = trcount g h x0;
+    E_nd : entv s h = MARK -> needsC g h x' <= needsC g h x0;
+    E_hfr : hugec g h (ms_held s') + hfr g h x' = hugec g h (ms_held s) + hfr g h x0
+  }.
+
+  Lemma same_step s s' t x0 x' h :
+    Inv g s -> nth_error (ms_pool s) t = Some x0 -> same_at s s' x0 x' h -> step_at s s' x0 x' h.
+  Proof.
+    intros I Ht [Ee Er Ez Ef Etr Ep Etc End Eh].
+    pose proof (fun f => sumf_ge f (ms_pool s) t x0 Ht) as G.
+    constructor; rewrite ?Ee.
+    - intros Hh r i Hr Hi. unfold bit. rewrite Er. specialize (Ef r i Hr Hi). rewrite Etr. lia.
+    - intros Hh He r i Hr Hi. pose proof (I_B g s I h Hh He r i Hr Hi). specialize (Ef r i Hr Hi). lia.
+    - intros Hh He. pose proof (I_C g s I h Hh He). rewrite Ez, Ep, Etc. lia.
+    - intros Hh He. pose proof (I_D g s I h Hh He). specialize (End He). pose proof (G (needsC g h)). lia.
+    - intros Hh He. apply (I_G g s I h Hh He).
+    - intros He. pose proof (I_F g s I h He). pose proof (G (hfr g h)). lia.
+    - intros Hh. apply (I_nobf g s I h Hh).
+  Qed.
+
+  (* ---------- global counting ---------- *)
+  Definition gfr (h : N) (x : thr) : N := gsum (fun r i => fr g h r i x).
+  Definition gheld (s : mstate) (h : N) : N := gsum (fun r i => heldc (fidx g h r i) (ms_held s)).
+  Definition goor (s : mstate) (h : N) : N := gsum (fun r i => oor (ms_frames s) (fidx g h r i)).
+
+  Lemma has_rows s h : Inv g s -> h < nbf g (ms_frames s) ->
+    exists rows, nth_error (ms_bfs s) (nn h) = Some rows /\ rows_ok g rows.
+  Proof.
+    intros I Hh. destruct (nth_error (ms_bfs s) (nn h)) as [rows|] eqn:E.
+    - exists rows. split; [reflexivity|]. apply (I_rows g s I _ _ E).
+    - exfalso. apply nth_error_None in E. rewrite (I_len1 g s I) in E. unfold nn in *. lia.
+  Qed.
+  Lemma has_row s h r : Inv g s -> h < nbf g (ms_frames s) -> r < ROWS ->
+    exists v, rd_row s h r = Some v /\ v < W64.
+  Proof.
+    intros I Hh Hr. destruct (has_rows s h I Hh) as (rows & E & Hl & Hf). unfold rd_row. rewrite E.
+    destruct (nth_error rows (nn r)) as [v|] eqn:E2.
+    - exists v. split; [reflexivity|]. apply (Forall_nth_error _ _ _ _ Hf E2).
+    - exfalso. apply nth_error_None in E2. rewrite Hl in E2. rewrite (ROWS_nat g wf) in Hr. unfold nn in *. lia.
+  Qed.
+  Lemma has_ent s h : Inv g s -> h < ntab g (ms_frames s) * THUGE -> exists v, rd_ent s h = Some v.
+  Proof.
+    intros I Hh. unfold rd_ent. destruct (nth_error (ms_ents s) (nn h)) as [v|] eqn:E; [eauto|].
+    exfalso. apply nth_error_None in E. rewrite (I_len2 g s I) in E. unfold nn in *. lia.
+  Qed.
+  Lemma rowv_rd s h r v : rd_row s h r = Some v -> rowv s h r = v.
+  Proof. intros H. unfold rowv. rewrite H. reflexivity. Qed.
+  Lemma entv_rd s h v : rd_ent s h = Some v -> entv s h = v.
+  Proof. intros H. unfold entv. rewrite H. reflexivity. Qed.
+
+  Lemma zeros_rows s h : Inv g s -> h < nbf g (ms_frames s) -> zeros s h = ssum ROWS (fun r => cz (rowv s h r)).
+  Proof.
+    intros I Hh. destruct (has_rows s h I Hh) as (rows & E & Hl & Hf). unfold zeros. rewrite E, sumf_nth_error, Hl, <- (ROWS_nat g wf).
+    apply ssum_ext. intros r Hr. unfold rowv, rd_row. rewrite E.
+    destruct (nth_error rows (nn r)) eqn:E2; [reflexivity|].
+    exfalso. apply nth_error_None in E2. rewrite Hl in E2. rewrite (ROWS_nat g wf) in Hr. unfold nn in *. lia.
+  Qed.
+  Lemma bits_zeros s h : Inv g s -> h < nbf g (ms_frames s) -> gsum (fun r i => b2n (bit s h r i)) + zeros s h = HF.
+  Proof.
+    intros I Hh. rewrite (zeros_rows s h I Hh). unfold gsum. rewrite <- ssum_add.
+    rewrite (ssum_ext _ _ (fun _ => 64)); [rewrite ssum_const, (HF_64 g wf); lia|].
+    intros r _. apply cz_bits.
+  Qed.
+
+  Lemma tr_sum x h : gwf g (ghost_of g x) -> ssum ROWS (fun r => tr g h r x) = trcount g h x.
+  Proof.
+    intros [Wt _ _]. unfold tr, trcount. destruct (h =? g_h (ghost_of g x)); cbn [andb].
+    - apply ssum_inb_in. exact Wt.
+    - rewrite ssum_const. lia.
+  Qed.
+
+  (* under a counter entry everything is accounted for exactly once *)
+  Lemma K1 s h : Inv g s -> h < nbf g (ms_frames s) -> entv s h <> MARK ->
+    entv s h + sumf (pend g h) (ms_pool s) + gheld s h + sumf (gfr h) (ms_pool s) + goor s h = HF.
+  Proof.
+    intros I Hh He. pose proof (bits_zeros s h I Hh) as Gb. pose proof (I_C g s I h Hh He) as C.
+    assert (Eq : gsum (fun r i => b2n (bit s h r i))
+                 = gheld s h + sumf (gfr h) (ms_pool s) + 64 * sumf (trcount g h) (ms_pool s) + goor s h).
+    { rewrite (gsum_ext _ (fun r i => heldc (fidx g h r i) (ms_held s) + sumf (fr g h r i) (ms_pool s)
+                                       + sumf (tr g h r) (ms_pool s) + oor (ms_frames s) (fidx g h r i))).
+      2:{ intros r i Hr Hi. pose proof (I_A g s I h r i Hh Hr Hi) as A. unfold isMark in A.
+          destruct (N.eqb_spec (entv s h) MARK); [contradiction|]. cbn [b2n] in A. lia. }
+      rewrite !gsum_add. unfold gheld, goor. rewrite (gsum_sumf (fr g h)). f_equal. f_equal.
+      rewrite (gsum_sumf (fun r _ => tr g h r)), <- sumf_mulc. apply sumf_ext_in. intros x Hx.
+      rewrite gsum_row. f_equal. apply tr_sum. apply (local_gwf g wf (ms_frames s)).
+      exact (proj1 (Forall_forall _ _) (I_L g s I) x Hx). }
+    lia.
+  Qed.
+
+  Lemma pend_needs h x : 0 < pend g h x -> needsC g h x = 1.
+  Proof.
+    unfold pend, needsC. destruct (h =? g_h (ghost_of g x)); [|lia]. cbn [andb].
+    destruct x as [l|c p|s c]; cbn [ghost_of]; [cbn; lia| |destruct s; cbn; lia].
+    destruct p; cbn [gpc]; try (cbn; lia); try (destruct (is_put c); cbn; lia); destruct x; cbn; lia.
+  Qed.
+
+  (* under the marker nothing is pending, and zero bits plus transit rows make up everything *)
+  Lemma K2 s h : Inv g s -> h < nbf g (ms_frames s) -> entv s h = MARK ->
+    sumf (pend g h) (ms_pool s) = 0 /\ zeros s h + 64 * sumf (trcount g h) (ms_pool s) = HF.
+  Proof.
+    intros I Hh He. split.
+    - apply sumf_all_zero. intros x Hx. pose proof (sumf_zero _ _ (I_D g s I h Hh He) x Hx) as Hn.
+      destruct (N.eq_dec (pend g h x) 0) as [?|Hp]; [assumption|]. pose proof (pend_needs h x ltac:(lia)). lia.
+    - pose proof (bits_zeros s h I Hh) as Gb. pose proof (I_G g s I h Hh He) as HG.
+      assert (Eq : gsum (fun r i => b2n (bit s h r i)) = 64 * sumf (trcount g h) (ms_pool s)).
+      { rewrite (gsum_ext _ (fun r i => sumf (tr g h r) (ms_pool s))).
+        2:{ intros r i Hr Hi. pose proof (I_A g s I h r i Hh Hr Hi) as A. pose proof (I_B g s I h Hh He r i Hr Hi) as B.
+            rewrite He in A. unfold isMark, oor in A. rewrite N.eqb_refl in A. cbn [b2n] in A.
+            pose proof (rowbit_lt g wf r i Hr Hi). unfold fidx in *. 
+            destruct (N.leb_spec (ms_frames s) (h * HF + r * 64 + i)); [lia|]. cbn [b2n] in A. lia. }
+        rewrite (gsum_sumf (fun r _ => tr g h r)), <- sumf_mulc. apply sumf_ext_in. intros x Hx.
+        rewrite gsum_row. f_equal. apply tr_sum. apply (local_gwf g wf (ms_frames s)).
+        exact (proj1 (Forall_forall _ _) (I_L g s I) x Hx). }
+      lia.
+  Qed.
+
+  Lemma anchored_gfr x : anchored g (ghost_of g x) -> 1 <= gfr (g_h (ghost_of g x)) x.
+  Proof.
+    intros (Hn & r & i & Hr & Hi & E). unfold gfr.
+    etransitivity; [|apply (gsum_ge (fun r i => fr g (g_h (ghost_of g x)) r i x) r i Hr Hi)].
+    unfold fr. cbv zeta. rewrite E. unfold inb. lia.
+  Qed.
+  Lemma hfr_gfr h x : hfr g h x <= gfr h x.
+  Proof.
+    pose proof (ROWS_pos g wf). unfold gfr.
+    etransitivity; [|apply (gsum_ge (fun r i => fr g h r i x) 0 0); lia].
+    unfold hfr, fr, fidx. cbv zeta. replace (h * HF + 0 * 64 + 0) with (h * HF) by lia. lia.
+  Qed.
+
+  (* a thread with nothing pending and owning nothing in h has no business in h *)
+  Lemma quiet_thread h x : gwf g (ghost_of g x) -> pend g h x + gfr h x = 0 ->
+    trcount g h x = 0 /\ (forall r, tr g h r x = 0) /\ needsC g h x = 0 /\ hfr g h x = 0.
+  Proof.
+    intros [Wt Wn Wtn] H0. pose proof (hfr_gfr h x) as Hh.
+    assert (Hnd : needsC g h x = 0).
+    { unfold needsC. destruct (N.eqb_spec h (g_h (ghost_of g x))) as [->|]; [|reflexivity].
+      destruct (nd (ghost_of g x)) eqn:En; [|reflexivity]. exfalso.
+      destruct (Wn eq_refl) as [Hp|Ha].
+      - unfold pend in H0. rewrite N.eqb_refl in H0. lia.
+      - pose proof (anchored_gfr x Ha). lia. }
+    assert (Htc : trcount g h x = 0).
+    { unfold trcount. destruct (N.eqb_spec h (g_h (ghost_of g x))) as [->|]; [|reflexivity].
+      destruct (N.eq_dec (tr_n (ghost_of g x)) 0) as [?|Hn]; [assumption|]. exfalso.
+      destruct (Wtn ltac:(lia)) as [Hd|Ha].
+      - unfold needsC in Hnd. rewrite N.eqb_refl, Hd in Hnd. discriminate.
+      - pose proof (anchored_gfr x Ha). lia. }
+    repeat split; try assumption; try lia.
+    intros r. unfold tr, trcount in *. destruct (h =? g_h (ghost_of g x)); [|reflexivity].
+    cbn [andb]. unfold inb. rewrite Htc. lia.
+  Qed.
+End Step.
